@@ -21,6 +21,10 @@ type Options struct {
 	AfterOp func(i int, op Op, r *Runner)
 	// FullCheckEvery: sweep all keys every n ops (0 = only on "check" ops and at the end).
 	FullCheckEvery int
+	// Route, when set, names the index structure through which the store would
+	// serve a (colliding) key right now; it becomes part of the anomaly signature
+	// so that known findings are tied to a mechanism, not just to a symptom.
+	Route func(key string) string
 }
 
 type Runner struct {
@@ -30,6 +34,7 @@ type Runner struct {
 	Case string
 	Opt  Options
 
+	lastGCMerge   bool
 	verUncertain  map[string]bool  // version moved without a data write (check_vhash tree-only update)
 	lastDataVer   map[string]int32 // version of the last data write
 	tombUncertain map[string]bool  // tombstone that a tree rebuild may have dropped
@@ -122,7 +127,7 @@ func (r *Runner) softViolate(key, sig, format string, a ...interface{}) {
 		// the key's visibility already diverged once; what follows is a
 		// consequence of that (the store may show or hide such a key again
 		// without any write), reported under one follow-up class
-		sig = "follow-up-anomaly:colliding"
+		sig = "follow-up:" + sig
 	}
 	r.anomalous[key] = true
 	detail := fmt.Sprintf(format, a...)
@@ -245,6 +250,10 @@ func (r *Runner) step(i int, op Op) {
 	case "del":
 		before := r.M.M[op.Key]
 		exp := r.M.Delete(op.Key)
+		droute := ""
+		if r.Opt.Colliding[op.Key] && r.Opt.Route != nil {
+			droute = ":via-" + r.Opt.Route(op.Key)
+		}
 		deleted, err := r.S.Delete(op.Key)
 		r.tracef("delete %q -> deleted=%v err=%v (model %v)", short(op.Key), deleted, err, exp)
 		if err != nil {
@@ -256,12 +265,12 @@ func (r *Runner) step(i int, op Op) {
 			// follows the store, so that what is judged afterwards (liveness and
 			// value of every member) is judged against the reply the client got
 			if deleted {
-				r.softViolate(op.Key, "delete-accepted-for-absent-key:colliding:"+r.relation(op.Key), "delete %q returned DELETED although this key is not live in the reference (%s)", op.Key, descr(before))
+				r.softViolate(op.Key, "delete-accepted-for-absent-key:colliding:"+r.relation(op.Key)+droute, "delete %q returned DELETED although this key is not live in the reference (%s)", op.Key, descr(before))
 				r.M.M[op.Key] = &ref.Entry{Ver: -1}
 				r.M.LastWrite[op.Key] = ref.Entry{Ver: -1}
 				exp = true
 			} else {
-				r.softViolate(op.Key, "delete-refused-for-live-key:colliding:"+r.relation(op.Key), "delete %q returned NOT_FOUND although the key is live in the reference (%s)", op.Key, descr(before))
+				r.softViolate(op.Key, "delete-refused-for-live-key:colliding:"+r.relation(op.Key)+droute, "delete %q returned NOT_FOUND although the key is live in the reference (%s)", op.Key, descr(before))
 				if before != nil {
 					cp := *before
 					r.M.M[op.Key] = &cp
@@ -439,6 +448,7 @@ func (r *Runner) step(i int, op Op) {
 		if ran {
 			r.GCs++
 			r.setPhaseAll("gc")
+			r.lastGCMerge = op.Merge
 			r.Rep.Event("gc.passes", 1)
 			r.CheckAll("after-gc")
 		} else {
@@ -559,13 +569,25 @@ func (r *Runner) checkKey(key, why string) {
 	var err error
 	resync := false
 	coll := r.Opt.Colliding[key]
+	route := ""
+	if coll && r.Opt.Route != nil {
+		// through which index structure the store is about to serve this key
+		// (taken before the get, which may itself register the collision)
+		route = ":via-" + r.Opt.Route(key)
+	}
 	// bad reports a mismatch. For a colliding key it is recorded under its own
 	// signature class and the model is re-synchronised with what the store
 	// serves, so that the rest of the history keeps being judged.
 	bad := func(sig, format string, a ...interface{}) {
 		if coll {
 			resync = true
-			r.softViolate(key, strings.Replace(sig, ":"+ph, "", 1)+":"+ph+":colliding:"+r.relation(key), format, a...)
+			cph := ph
+			if ph == "gc" && !r.lastGCMerge {
+				// a pass that was asked not to merge the hint files first has no
+				// way to learn about same-hash groups it has not met yet
+				cph = "gc-nomerge"
+			}
+			r.softViolate(key, strings.Replace(sig, ":"+ph, "", 1)+":"+cph+":colliding:"+r.relation(key)+route, format, a...)
 			return
 		}
 		r.violate(sig, format, a...)
